@@ -194,14 +194,18 @@ class FieldSpec:
         if sum(p is not None for p in (self.rename, self.aliases, self.in_names)) > 1:
             raise TypeError("Can only specify one of 'rename', 'aliases', and 'in_names'")
 
+        # names derived from the field name, under the class's rename style(s)
+        default_names = tuple(rename_field(name, style) for style in in_rename) if in_rename is not None else (name,)
+
         if self.rename is not None:
             in_names = (self.rename,)
         elif self.aliases is not None:
-            in_names = (name, *(alias for alias in self.aliases if alias != name))
+            # aliases are accepted in addition to the default names
+            in_names = (*default_names, *(alias for alias in self.aliases if alias not in default_names))
         elif self.in_names is not None:
             in_names = self.in_names
         else:
-            in_names = tuple(rename_field(name, style) for style in in_rename) if in_rename is not None else (name,)
+            in_names = default_names
 
         ty = t.cast(type, t.Any if self.ty is _MISSING else self.ty)
         return Field(
